@@ -136,15 +136,30 @@ func c02CR(class string, from int64) string {
 	panic(vx.ToolError{Msg: "unknown content-range class " + class})
 }
 
-// c02Answers builds the alphabet for one request.  Index 0 is the nominal answer.
-func c02Answers(from int64, ranged bool, rich bool) []c02Ans {
+// Alphabet levels.  Index 0 of every alphabet is the nominal answer.
+//   core: {200,206} x 8 bodies x Content-Range {correct,missing} (+ one cut), 4 error statuses, 1 redirect, no response
+//   std : {200,206} x 8 bodies x 4 Content-Range forms x cut {none,0,3}; 203 (an unexpected 2xx) x 2; 4 error statuses x 2 bodies
+//         (+429 with Retry-After); 302 -> {second storage host path, itself, no Location}; no response at all
+//   rich: std + 4 more bodies, 5 more Content-Range forms, cut at size-1, close-delimited bodies, 201, 6 more error
+//         statuses, 301/303/307/308
+const (
+	c02Core = iota
+	c02Std
+	c02Rich
+)
+
+var c02LevelNames = []string{"core", "std", "rich"}
+
+// c02Answers builds the alphabet for one request.
+func c02Answers(from int64, ranged bool, level int) []c02Ans {
 	var nominal c02Ans
 	if ranged {
 		nominal = c02Ans{Kind: "data", Status: 206, Body: "suffix", CR: "correct", Cut: -1}
 	} else {
 		nominal = c02Ans{Kind: "data", Status: 200, Body: "exact", CR: "missing", Cut: -1}
 	}
-	statuses := []int{200, 206, 203}
+	statuses := []int{200, 206}
+	odd2xx := []int{203}
 	var bodies, crs []string
 	cuts := []int{-1, 0, 3}
 	if ranged {
@@ -155,9 +170,21 @@ func c02Answers(from int64, ranged bool, rich bool) []c02Ans {
 		crs = []string{"missing", "start-0"}
 	}
 	errStatuses := []int{416, 404, 500, 429}
+	errBodies := []string{"json", "exact"}
 	redirs := []c02Ans{{Kind: "redirect", Status: 302, Loc: "storage2"}, {Kind: "redirect", Status: 302, Loc: "self"}, {Kind: "redirect", Status: 302, Loc: "none"}}
-	if rich {
-		statuses = append(statuses, 201)
+	switch level {
+	case c02Core:
+		odd2xx = nil
+		cuts = []int{-1}
+		if ranged {
+			crs = []string{"correct", "missing"}
+		} else {
+			crs = []string{"missing"}
+		}
+		errBodies = []string{"json"}
+		redirs = redirs[:1]
+	case c02Rich:
+		odd2xx = append(odd2xx, 201)
 		if ranged {
 			bodies = append(bodies, "prefix-1", "prefix-allbut1", "wrong-offset-1", "flip-last")
 			crs = append(crs, "start-1", "start-0", "no-unit", "junk-prefix", "star")
@@ -186,16 +213,25 @@ func c02Answers(from int64, ranged bool, rich bool) []c02Ans {
 					}
 					add(c02Ans{Kind: "data", Status: st, Body: b, CR: cr, Cut: cut})
 				}
-				if rich {
+				if level == c02Rich {
 					add(c02Ans{Kind: "data", Status: st, Body: b, CR: cr, Cut: -1, NoLength: true})
 				}
 			}
 		}
 	}
+	if level == c02Core {
+		a := nominal
+		a.Cut = 3
+		add(a)
+	}
+	for _, st := range odd2xx {
+		add(c02Ans{Kind: "data", Status: st, Body: bodies[0], CR: crs[0], Cut: -1})
+		add(c02Ans{Kind: "data", Status: st, Body: "flip-first", CR: crs[0], Cut: -1})
+	}
 	for _, st := range errStatuses {
-		for _, b := range []string{"json", "exact"} {
+		for _, b := range errBodies {
 			add(c02Ans{Kind: "error", Status: st, Body: b, Cut: -1})
-			if st == 429 {
+			if st == 429 && level != c02Core {
 				add(c02Ans{Kind: "error", Status: st, Body: b, Cut: -1, RetryAfter: "1"})
 			}
 		}
@@ -222,7 +258,7 @@ type c02Script struct {
 	mu      sync.Mutex
 	id      string
 	choose  func(reqIndex int, n int) int // explorer choice for the answer to request #reqIndex
-	rich    func(reqIndex int) bool
+	level   func(reqIndex int) int
 	reqs    []c02Req
 	toolErr string
 	closed  bool
@@ -365,7 +401,7 @@ func (sc *c02Script) answer(site string, req *http.Request) (raw []byte) {
 		sc.toolErr = fmt.Sprintf("more than %d requests in one case", c02MaxRequests)
 		return nil
 	}
-	alpha := c02Answers(from, ranged, sc.rich(idx))
+	alpha := c02Answers(from, ranged, sc.level(idx))
 	a := alpha[sc.choose(idx, len(alpha))]
 	sc.reqs = append(sc.reqs, c02Req{Site: site, Range: rh, Ans: a.String(), ans: a, from: from})
 
@@ -414,18 +450,20 @@ func (sc *c02Script) answer(site string, req *http.Request) (raw []byte) {
 
 // --- the scenario ------------------------------------------------------------------------------------------------
 
-// c02BasicTier describes how the answer to request #i is enumerated.
+// c02BasicTier describes how the answer to request #i of a case is enumerated: requests with index < len(Full) are
+// Input choices over the alphabet level Full[i] (every answer); later requests are Env choices over the Later
+// alphabet (a non-nominal answer costs 1 against BoundEnv).
 type c02BasicTier struct {
-	FullDepth int // requests with index < FullDepth: Input choice (all answers); later requests: Env choice (deviation costs 1)
-	RichDepth int // requests with index < RichDepth use the rich alphabet
-	BoundEnv  int
+	Full     []int
+	Later    int
+	BoundEnv int
 }
 
 func (h *c02H) basicTier() c02BasicTier {
 	if h.c.Thorough() {
-		return c02BasicTier{FullDepth: 3, RichDepth: 1, BoundEnv: 1}
+		return c02BasicTier{Full: []int{c02Rich, c02Core}, Later: c02Core, BoundEnv: 1}
 	}
-	return c02BasicTier{FullDepth: 1, RichDepth: 0, BoundEnv: 1}
+	return c02BasicTier{Full: []int{c02Std}, Later: c02Core, BoundEnv: 1}
 }
 
 func (h *c02H) runBasic(x *vx.X) vx.Result {
@@ -433,16 +471,21 @@ func (h *c02H) runBasic(x *vx.X) vx.Result {
 	pi := x.In(len(c02PartStates))
 	fi := x.In(len(c02FinalStates))
 	ps, fstate := c02PartStates[pi], c02FinalStates[fi]
-	cs := h.newCase()
-	defer cs.cleanup()
+	cs := h.pooledCase()
+	defer h.release(cs)
 	cs.install(ps, fstate)
 	before := c02Snapshot(cs.final)
 
 	srv := h.server()
 	sc := &c02Script{id: fmt.Sprintf("%d-%d", os.Getpid(), cs.id)}
-	sc.rich = func(i int) bool { return i < tier.RichDepth }
+	sc.level = func(i int) int {
+		if i < len(tier.Full) {
+			return tier.Full[i]
+		}
+		return tier.Later
+	}
 	sc.choose = func(i, n int) int {
-		if i < tier.FullDepth {
+		if i < len(tier.Full) {
 			return x.In(n)
 		}
 		return x.EnvC(n)
@@ -529,11 +572,17 @@ func init() {
 		},
 		Explore: func(h *c02H, exec func([]vx.Point) vx.Result) *vx.Stats {
 			tier := h.basicTier()
-			h.c.Bounds["basic.requests_enumerated_in_full"] = tier.FullDepth
-			h.c.Bounds["basic.deviation_bound_for_later_requests"] = tier.BoundEnv
-			h.c.Bounds["basic.requests_with_rich_alphabet"] = tier.RichDepth
-			h.c.Bounds["basic.alphabet_sizes(ranged,unranged)"] = []int{len(c02Answers(6, true, false)), len(c02Answers(0, false, false))}
-			h.c.Bounds["basic.rich_alphabet_sizes(ranged,unranged)"] = []int{len(c02Answers(6, true, true)), len(c02Answers(0, false, true))}
+			var full []string
+			for _, l := range tier.Full {
+				full = append(full, c02LevelNames[l])
+			}
+			h.c.Bounds["basic.requests_enumerated_in_full(alphabet per request)"] = full
+			h.c.Bounds["basic.later_requests"] = fmt.Sprintf("alphabet %s, at most %d non-nominal answer(s) per case", c02LevelNames[tier.Later], tier.BoundEnv)
+			sizes := map[string][]int{}
+			for l, n := range c02LevelNames {
+				sizes[n] = []int{len(c02Answers(6, true, l)), len(c02Answers(0, false, l))}
+			}
+			h.c.Bounds["basic.alphabet_sizes(ranged,unranged)"] = sizes
 			h.c.Bounds["part_states"] = len(c02PartStates)
 			h.c.Bounds["final_states"] = len(c02FinalStates)
 			h.c.Bounds["object_bytes"] = c02Size
